@@ -279,8 +279,8 @@ func overflowGuard(inst ssa.Instruction, operand ssa.Value, res *types.Basic) (b
 			continue
 		}
 		arg := call.Call.Args[1]
-		same := arg == operand
-		if cv, ok := arg.(*ssa.Convert); ok && cv.X == operand {
+		same := sameLocalLoad(arg, operand)
+		if cv, ok := arg.(*ssa.Convert); ok && sameLocalLoad(cv.X, operand) {
 			same = true // e.g. OverflowComplex(complex128(c64))
 		}
 		if !same {
